@@ -43,3 +43,9 @@ Definition u_mul (bits a b : Z) : Z := (a * b) mod 2 ^ bits.
 Definition dec_ceil (a : Z) : Z :=
   let q := Z.quot a P in let r := Z.rem a P in
   if r =? 0 then q * P else if a <? 0 then q * P else (q + 1) * P.
+
+(* bytes.Compare on byte strings (sdk.AccAddress): lexicographic by byte value = String.compare *)
+Definition bytes_cmp (a b : string) : Z := match String.compare a b with Lt => -1 | Eq => 0 | Gt => 1 end.
+
+Lemma bytes_cmp_lt a b : (bytes_cmp a b <? 0) = String.ltb a b.
+Proof. unfold bytes_cmp, String.ltb. destruct (String.compare a b); reflexivity. Qed.
